@@ -135,7 +135,7 @@ Definition schedule (cap : Z) (n : nat) (commit : Z) (ds : list Z) : draw (list 
 
 (** [SchedulingParams::new_with_default_distributions]: the [scale] closure. *)
 Definition scale_delay (I value : Z) : Z :=
-  let scaled := value * I / 144 in
+  let scaled := value * I / ZIP318_INTERVAL in
   if scaled <=? u32_max then (if scaled =? 0 then 1 else scaled) else u32_max.
 
 (* ------------------------------------------------------------------------------------------ *)
